@@ -370,7 +370,7 @@ impl Display for RecordValue {
 
 #[inline]
 fn serialize_integer(value: i64, min: i64, max: i64, buffer: &mut ByteStreamWriteBuffer) {
-    let uint = (value - min) as u64;
+    let uint = value.wrapping_sub(min) as u64;
     let data = uint.to_le_bytes();
     let bits = integer_bits(min, max);
     buffer.add_bits(&data, bits);
